@@ -419,6 +419,55 @@ example : errOf (vectorBinop (V := Int) .add false .on ["job"]
     [([("job", "x")], 10)]
     [([("inst", "1"), ("job", "x")], 1), ([("inst", "2"), ("job", "x")], 2)]) = some .dupMatch := by decide
 
+/-! ### the duration-to-zero clamp of rate / increase -/
+
+/-- the clamp condition is Prometheus's: counter ∧ increase > 0 ∧ first value ≥ 0 (over integer
+samples). -/
+theorem clamp_condition (isCounter : Bool) (result first : Int) :
+    clampApplies isCounter result first = true ↔ isCounter = true ∧ 0 < result ∧ 0 ≤ first := by
+  simp [clampApplies, Val.lt, Val.le, Val.ofInt, and_assoc]
+
+/-- a first sample of exactly 0 (fresh counter, reset to 0) IS clamped … -/
+theorem clamp_applies_at_zero (result : Int) (h : 0 < result) : clampApplies true result (0 : Int) = true := by
+  simp [clampApplies, Val.lt, Val.le, Val.ofInt, h]
+
+/-- **extrapolation_clamped_when_first_nonneg**: for a counter window with a positive increase and
+a non-negative first value the extrapolated start never lies before the counter's zero point: the
+duration used before the first sample is at most `sampled · first / increase` (and never more
+than the distance to the window start). In particular with a first value of 0 nothing is
+extrapolated before the first sample. -/
+theorem extrapolation_clamped_when_first_nonneg (result first sampled dStart0 : Int)
+    (hr : 0 < result) (hf : 0 ≤ first) :
+    clampedStart true result first sampled dStart0 ≤ sampled * (first / result) ∧
+    clampedStart true result first sampled dStart0 ≤ dStart0 := by
+  have hc : clampApplies true result first = true := (clamp_condition true result first).mpr ⟨rfl, hr, hf⟩
+  simp only [clampedStart, hc, if_true, Val.mul, Val.div, Val.lt]
+  by_cases h : sampled * (first / result) < dStart0
+  · simp [h]; omega
+  · simp [h]; omega
+
+theorem extrapolation_zero_first_not_extended (result sampled dStart0 : Int) (hr : 0 < result) (hd : 0 ≤ dStart0) :
+    clampedStart true result 0 sampled dStart0 = 0 := by
+  have hc := clamp_applies_at_zero result hr
+  simp only [clampedStart, hc, if_true, Val.mul, Val.div, Val.lt]
+  by_cases h : dStart0 = 0
+  · simp [h]
+  · have : (0 : Int) < dStart0 := by omega
+    simp [this]
+
+/-- without the clamp (a gauge for `delta`, no increase, a negative first value) the whole distance
+to the window start is used. -/
+theorem extrapolation_unclamped (isCounter : Bool) (result first sampled dStart0 : Int)
+    (h : clampApplies isCounter result first = false) :
+    clampedStart isCounter result first sampled dStart0 = dStart0 := by
+  simp [clampedStart, h]
+
+-- increase over samples 0, 5, 10 (10 s apart), window starting 5 s before the first sample:
+-- clamped (duration to zero = 0), not extended backwards
+example : clampedStart true (10 : Int) 0 20 5 = 0 := by decide
+example : clampedStart true (10 : Int) 3 20 8 = 0 := by decide
+example : clampedStart false (10 : Int) 0 20 5 = 5 := by decide
+
 /-! ### set operators -/
 
 /-- **set_and_unless_partition**: `l and r` and `l unless r` split the left-hand vector: every
